@@ -171,6 +171,7 @@ type SiteAction struct {
 }
 
 type SiteAct struct {
+	Idx  Expr   // for set on a ghost map: Var[Idx] = E
 	Kind string // "assert", "assume", "set"
 	Var  string // for set
 	E    Expr
